@@ -328,6 +328,9 @@ def must_call_prot(ctx, body, inst, want_mask):
         if short == "push" and "MemoryArea" in " ".join(t["f"].get("gargs", [])) and len(args) == 2:
             path.events.append(("area_pushed", args[1]))
             return [(A.UNIT, path)]
+        if short == "insert" and name.startswith("std::vec::Vec") and "MemoryArea" in " ".join(t["f"].get("gargs", [])) and len(args) == 3:
+            path.events.append(("area_pushed", args[2]))  # added at a chosen position (a sorted list): still added
+            return [(A.UNIT, path)]
         if name == protp:
             path.events.append(("prot", args[1], args[2]))
             p2 = path.copy()
